@@ -1,3 +1,8 @@
 -- Root of the `RainModel` library: models, lemmas, property theorems.
 import RainModel.Model.Blocks
 import RainModel.Model.Registry
+import RainModel.Lemmas.Registry
+import RainModel.Lemmas.RegistrySteps
+import RainModel.Lemmas.RegistryQuiescent
+import RainModel.Lemmas.RegistryRestart
+import RainModel.Props.C14
